@@ -453,7 +453,17 @@ fn at(v: &[bool], i: usize) -> bool {
 }
 
 /// runs a history on the implementation and, in parallel, on plain boolean sequences
+/// one history, guarded: a panic that escapes the per-operation guards (e.g. inside an observation of a
+/// value that an earlier operation left malformed) is reported against C11 and does not end the run
 fn run_history<B: BK>(ctx: &mut Ctx, ops: &[String]) {
+    let r = catch_unwind(AssertUnwindSafe(|| run_history_inner::<B>(ctx, ops)));
+    if r.is_err() {
+        let ks = B::kind().s();
+        ctx.out.r("C11", "bitops", false, &["history_panicked_outside_operation_guards", "bitops", &ks, &ops.join(";"), "?"]);
+    }
+}
+
+fn run_history_inner<B: BK>(ctx: &mut Ctx, ops: &[String]) {
     let kind = B::kind();
     let ks = kind.s();
     let mut pool: Vec<B> = Vec::new();
@@ -706,6 +716,9 @@ fn run_history<B: BK>(ctx: &mut Ctx, ops: &[String]) {
         if let Some(last) = pool.last() {
             ctx.out.r("C13", "bitops", kind.len_ok(last.len_()), &["length_bound", "bitops", &ks, &hist, &step.to_string()]);
             // the bound also holds for what the value's own encoding says it holds: decoding it gives the same length
+            // C01 on values reached through operations: the encoding of the value decodes back to it
+            let rt = catch_unwind(AssertUnwindSafe(|| matches!(B::from_ssz_bytes(&last.as_ssz_bytes()), Ok(x) if x == *last))).unwrap_or(false);
+            ctx.out.r("C01", "bitops", rt, &["round_trip_of_operation_result", "bitops", &ks, &hist, &step.to_string()]);
             let re = catch_unwind(AssertUnwindSafe(|| B::from_ssz_bytes(&last.as_ssz_bytes()).map(|x| x.len_()).ok()));
             ctx.out.r("C13", "bitops", matches!(&re, Ok(Some(l)) if *l == last.len_() && kind.len_ok(*l)), &["encoding_carries_the_same_length", "bitops", &ks, &hist, &step.to_string()]);
             let sl = last.slice_();
